@@ -179,12 +179,13 @@ func GenConfig(r *core.Rng, p *Profile) Config {
 
 // Gen produces operations online from the state of the model.
 type Gen struct {
-	R     *core.Rng
-	P     *Profile
-	Cfg   *Config
-	val   int
-	maxW  uint64
-	fresh int
+	R             *core.Rng
+	P             *Profile
+	Cfg           *Config
+	val           int
+	maxW          uint64
+	fresh         int
+	prefillTarget int
 }
 
 func (g *Gen) newVal() int {
@@ -279,10 +280,25 @@ func (g *Gen) Next(m *Model) Op {
 		w[OpRunTasks] = 0
 	}
 	kind := r.Pick(w[:])
+	if c.Keys > 100 {
+		// a large key space starts with a run of plain insertions that brings the hash table close to its
+		// first growth (32 buckets x 5 slots x 0.75), so that it is one of the following random operations -
+		// a load, a computation, an insertion with calculators - that makes the table grow
+		if g.prefillTarget == 0 {
+			g.prefillTarget = 105 + r.Intn(20)
+		}
+		if g.fresh < g.prefillTarget {
+			kind = OpSet
+		}
+	}
 	op := Op{Kind: kind, Name: opNames[kind]}
 	switch kind {
 	case OpSet, OpSetIfAbsent:
 		op.Key, op.Val = g.key(), g.newVal()
+		if c.Keys > 100 && g.fresh < g.prefillTarget {
+			g.fresh++
+			op.Key = g.fresh % c.Keys
+		}
 	case OpGetIfPresent, OpGetEntry, OpGetEntryQuietly, OpInvalidate:
 		op.Key = g.key()
 	case OpCompute:
